@@ -471,7 +471,7 @@ func main() {
 	decodeCase("corpus-malformed", []int{kBool}, false, []byte{0xb5, 0x75, 0x72, 0x98}, true, true)
 
 	// (2) random values and concatenations
-	for i := 0; i < c.N(600, 40000); i++ {
+	for i := 0; i < c.N(600, 12000); i++ {
 		n := 1
 		if r.Chance(1, 2) {
 			n = r.Range(2, 6)
@@ -507,7 +507,7 @@ func main() {
 		}
 	}
 	// (4) arbitrary bytes as each primitive
-	for i := 0; i < c.N(90, 15000); i++ {
+	for i := 0; i < c.N(90, 2500); i++ {
 		l := r.Intn(41)
 		if r.Chance(1, 6) {
 			l = r.Range(240, 300)
